@@ -30,7 +30,8 @@ CHECKS = {
         note="Range theorems exist for every task family (Props/C01_<Task>.lean), incl. the entropy-based scores over the "
              "reals (Props/C01_Entropy.lean: Shannon entropy in [0, log n], information gain in [0,1], 0 <= MI <= min(H,H'), "
              "NMI, NCE over/under/F and V-measure scores in [0,1], AMI <= 1 via the hypergeometric expectation and "
-             "Vandermonde); binary64 rounding effects stay with correspondence and the oracle. Known findings: Cemgil > 1, standard_FPR precision > 1, pairwise/Rand 0/0, information gain nan for coincident "
+             "Vandermonde; the loop's range is the whole support, weights summing to 1: hyp_weights_sum_one, "
+             "emi_hypergeometric_full_support); binary64 rounding effects stay with correspondence and the oracle. Known findings: Cemgil > 1, standard_FPR precision > 1, pairwise/Rand 0/0, information gain nan for coincident "
              "estimated beats (NMI rounding noise was repaired by clipping MI at 0).",
         design="§5 C01"),
     "C02": dict(
@@ -173,7 +174,8 @@ CHECKS = {
              "more clusters), NMI = MI/max(sqrt(H H'), 1e-10), NCE over/under = 1 - H2(est|ref)/log2 k_est and "
              "1 - H2(ref|est)/log2 k_ref (0 with fewer than two clusters), V-measure scores = 1 - H(.|.)/H(.) = MI/H(.) "
              "(chain rule MI = H(est) - H(est|ref)), gammaln(k+1) = log k!, the AMI triple loop is the hypergeometric "
-             "expectation sum (k/n) log(nk/(ab)) C(a,k)C(n-a,b-k)/C(n,b) and AMI = (MI-EMI)/(max(H,H')-EMI), with "
+             "expectation sum (k/n) log(nk/(ab)) C(a,k)C(n-a,b-k)/C(n,b) over the whole support, the weights summing to 1 "
+             "(hypergeometric_weights_sum_one, emi_is_hypergeometric_expectation), and AMI = (MI-EMI)/(max(H,H')-EMI), with "
              "the one-cluster/empty early returns; labels are compared case-insensitively; exact correspondence for the rational "
              "indices, 1e-9 for the transcendental ones; thorough tier enumerates all pairs of restricted-growth "
              "label sequences up to 8 frames.",
